@@ -24,7 +24,7 @@ def codec_stage():
 PROPS = {
     'C01': dict(
         technique='ASan+UBSan run of encode->decode on generated batches with snapshot round-trip oracle and independent wire-level frame walker',
-        level_text='Exploration: every generated batch (boundary sweeps + seeded random, all payload kinds, all encode overloads, 25 <= max <= 65559) is encoded by the real Encoder and decoded by the real Decoder under ASan/UBSan; decoded packets are compared field by field with the originals and the frames are also parsed by an independent big-endian walker so that errors cancelling between encoder and decoder stay visible. Later additions: top of the legal ranges (max 65536..65559 x payload 65500..65535, big packet followed by a tiny one), frames holding 254..2049 tiny messages followed by a packet that does not fit, batches of 256..4117 packets, packets re-typed in place / edited in place through getPayload() / handed over as copies, decoders with a reassembly open on the very endpoint. Right level: the property is a universally quantified input/output relation of pure, microsecond-fast code, so dense boundary-directed sampling with an exact oracle is what runtime monitoring can give.',
+        level_text='Exploration: every generated batch (boundary sweeps + seeded random, all payload kinds, all encode overloads, 25 <= max <= 65559) is encoded by the real Encoder and decoded by the real Decoder under ASan/UBSan; decoded packets are compared field by field with the originals and the frames are also parsed by an independent big-endian walker so that errors cancelling between encoder and decoder stay visible. Later additions: top of the legal ranges (max 65536..65559 x payload 65500..65535, big packet followed by a tiny one), frames holding 254..2049 tiny messages followed by a packet that does not fit, batches of 256..4117 packets, packets re-typed in place / edited in place through getPayload() / handed over as copies, decoders with a reassembly open on the very endpoint. Right level: the property is a universally quantified input/output relation of pure, microsecond-fast code, so dense boundary-directed sampling with an exact oracle is what runtime monitoring can give. Later families: one round trip in four copies the decoder between two frames and feeds the copy first (both owe the same packets); one history in four keeps the caller\'s packet objects across encode calls and edits them in place (header setters, Ethernet data through an earlier Payload reference).',
         level_note='Trusted: wire model (harness/common/wire.h), snapshot of public getters, g++ sanitizers. Not covered: inputs outside the generated shapes; nothing is proved.',
         stages=[codec_stage()],
         rule=CODEC_RULE,
@@ -34,7 +34,7 @@ PROPS = {
     ),
     'C07': dict(
         technique='ASan+UBSan run of Encoder::encode with an independent frame walker and exactly-once byte conservation monitor',
-        level_text='Exploration: every frame returned for generated batches/configurations is parsed by a walker that shares no code with the library (size bounds, >= 1 complete message, exact tiling, zero padding only up to min, padding only when needed) and every payload byte is matched exactly once and in order against the packets; empty batches on fresh and used encoders are included; sanitizers watch for crashes.',
+        level_text='Exploration: every frame returned for generated batches/configurations is parsed by a walker that shares no code with the library (size bounds, >= 1 complete message, exact tiling, zero padding only up to min, padding only when needed) and every payload byte is matched exactly once and in order against the packets; empty batches on fresh and used encoders are included; sanitizers watch for crashes. One history in four keeps the caller\'s packet objects across encode calls and edits them in place (header setters; Ethernet data through a Payload reference obtained earlier, half of the time with no other call in between); histories continue on copies of the encoder with the original kept alive or destroyed.',
         level_note='Trusted: wire model and walker; domain packets have a non-zero payload type byte (how padding is recognised).',
         stages=[codec_stage()],
         rule=CODEC_RULE,
@@ -44,7 +44,7 @@ PROPS = {
     ),
     'C08': dict(
         technique='ASan+UBSan run of Encoder::encode; observed frame layout compared with an executable reference model of the segmentation/aggregation rules',
-        level_text='Exploration: the layout observed on the wire (which packet, which segment flag, offset, length, per frame) must equal the layout computed by a 60-line reference model written from the rule text, for dense sweeps around every fit/no-fit boundary and seeded random batches; rule-specific keys name the first broken rule.',
+        level_text='Exploration: the layout observed on the wire (which packet, which segment flag, offset, length, per frame) must equal the layout computed by a 60-line reference model written from the rule text, for dense sweeps around every fit/no-fit boundary and seeded random batches; rule-specific keys name the first broken rule. One history in four keeps the caller\'s packet objects across encode calls and edits them in place; histories continue on copies of the encoder with the original kept alive or destroyed.',
         level_note='Trusted: ref_encoder.h implements exactly the rules of the statement (they determine the layout uniquely); wire walker.',
         stages=[codec_stage()],
         rule=CODEC_RULE + ' Extra counters fit_boundary_*[d] give how often a packet length was exactly d bytes from a fit/no-fit boundary.',
@@ -56,7 +56,7 @@ PROPS = {
     ),
     'C09': dict(
         technique='ASan+UBSan run of encoder histories with a shadow-state monitor over frame headers (identity, version, type, consecutive 16-bit counter, resets)',
-        level_text='Exploration: histories of setDeviceId/setStreamId/restart/encode on one encoder, including deterministic histories emitting > 140000 frames (two wraps) and resets placed at counters 65535/0/1, are monitored frame by frame against a shadow state; getSequenceCounter() is compared with the last emitted frame after every call.',
+        level_text='Exploration: histories of setDeviceId/setStreamId/restart/encode on one encoder, including deterministic histories emitting > 140000 frames (two wraps) and resets placed at counters 65535/0/1, are monitored frame by frame against a shadow state; getSequenceCounter() is compared with the last emitted frame after every call. Histories also contain packets with empty payloads (C09 does not restrict lengths), calls left by an exception, and continue on copies of the encoder while the original stays alive or is destroyed.',
         level_note='Trusted: shadow model (reset to 0 on set*/restart, +1 mod 65536 per frame). The value reported between a reset and the next frame is unspecified and unchecked.',
         stages=[codec_stage()],
         rule=('cases = encoder histories of {setDeviceId, setStreamId, restart, encode(batch, ctx)}: deterministic ones that emit > 140000 frames on one '
@@ -68,7 +68,7 @@ PROPS = {
     ),
     'C10': dict(
         technique='ASan+UBSan differential monitor: n-th encode call on a used encoder versus a fresh encoder for the same batch, after every call of generated histories',
-        level_text='Exploration: after every encode call of every generated history (mixed contexts, message types, batches ending with segmented packets, empty batches, config changes) (histories also contain calls that leave encode() by an exception - a failing input iterator, an unallocatable maximum - and continuations on copies of the encoder) the frames are compared with those of a fresh encoder with the same ids: same count, identical bytes outside the counter, constant counter offset; sanitizers and the signal/abort path catch crashes caused by leftover state.',
+        level_text='Exploration: after every encode call of every generated history (mixed contexts, message types, batches ending with segmented packets, empty batches, config changes) (histories also contain calls that leave encode() by an exception - a failing input iterator, an unallocatable maximum - and continuations on copies of the encoder) the frames are compared with those of a fresh encoder with the same ids: same count, identical bytes outside the counter, constant counter offset; sanitizers and the signal/abort path catch crashes caused by leftover state. One history in four keeps the caller\'s packet objects (same addresses) across calls and edits them in place, so that anything the encoder remembers about a packet object is compared with a fresh encoder fed fresh objects.',
         level_note='Trusted: the fresh encoder run is itself checked by the C07/C08 oracles in the same execution.',
         stages=[codec_stage()],
         rule=('cases = encoder histories; after EVERY encode call the frames are compared with those of a fresh encoder (same ids) for the same batch: equal '
@@ -81,7 +81,7 @@ PROPS = {
 
     'C04': dict(
         technique='ASan+UBSan run of Decoder::decode on wire-model frames; every returned packet compared with an independent big-endian parse (fields, validity class, truncation prefix, zero padding)',
-        level_text='Exploration: frames are laid out by an independent wire model (all payload kinds, consistent / deliberately inconsistent / bus-error payloads, 0..6 messages, every version, message type and payload type byte), decoded on decoders with prior history (open reassemblies on the same endpoint) and each packet is compared field by field with an independent parse; every cut point of the canonical frames and zero paddings of several lengths are enumerated. Validity is demanded only where the statement fixes it (three-valued expectation).',
+        level_text='Exploration: frames are laid out by an independent wire model (all payload kinds, consistent / deliberately inconsistent / bus-error payloads, 0..6 messages, every version, message type and payload type byte), decoded on decoders with prior history (open reassemblies on the same endpoint) and each packet is compared field by field with an independent parse; every cut point of the canonical frames and zero paddings of several lengths are enumerated. Validity is demanded only where the statement fixes it (three-valued expectation). One random case in six adds a frame that is well-formed under both the CMP and the TECMP layout (non-zero first byte): the independent CMP parse decides.',
         level_note='Trusted: wire model offsets (C12 layout table), expectValidity() classification in framegen.h; messages with error-in-payload or payload type 0 and message type 0 validity are outside the oracle.',
         stages=[dict(driver='drv_decode', flavour='asan')],
         rule=('cases = per payload kind x k in {0,1,2,5} messages: whole frame + EVERY cut point + zero paddings {1,15,16,17,64}; sweeps of all versions / message types / payload types; '
@@ -93,7 +93,7 @@ PROPS = {
     ),
     'C05': dict(
         technique='ASan+UBSan run of multi-endpoint interleaved segment streams; per-call delivery oracle computed from the generation script (exactly-once, at the last segment, content by unique ids)',
-        level_text='Exploration: 1..4 endpoint streams of well-formed segmented (2..12 segments, sizes 0..max, unequal) and unsegmented messages with unique content are merged (all 20 merges x 36 starting-counter pairs exhaustively, bursty random merges otherwise), starting counters include 65533..65535, distinctive non-zero trailing bytes follow segments; deterministic extremes: reassembled totals 65519..65535, messages in 300 / 5000 / 65535 segments, 257 / 300 / 700 endpoints mid-message at once, 70 000 / 140 000 foreign frames between two segments, decoder continued on copies of itself; after EVERY decode call the delivered packets must be exactly the messages that complete at that frame, with the first segment\'s header fields.',
+        level_text='Exploration: 1..4 endpoint streams of well-formed segmented (2..12 segments, sizes 0..max, unequal) and unsegmented messages with unique content are merged (all 20 merges x 36 starting-counter pairs exhaustively, bursty random merges otherwise), starting counters include 65533..65535, distinctive non-zero trailing bytes follow segments; deterministic extremes: reassembled totals 65519..65535, messages in 300 / 5000 / 65535 segments, 257 / 300 / 700 endpoints mid-message at once, 70 000 / 140 000 foreign frames between two segments, decoder continued on copies of itself; after EVERY decode call the delivered packets must be exactly the messages that complete at that frame, with the first segment\'s header fields. One message in five carries behind every segment a train of well-formed look-alike messages at a stride that matches its segment sizes; a copy of the decoder taken mid-history is fed the same frames next to the original and must deliver the same packets.',
         level_note='Trusted: generation script bookkeeping; wire model. Reassembled totals > 65535 bytes are outside the domain.',
         stages=[dict(driver='drv_decode', flavour='asan')],
         rule=('cases = interleaved multi-endpoint histories; every decode call is one evaluation. A history is non-trivial iff >= 2 reassemblies were open simultaneously; '
@@ -104,7 +104,7 @@ PROPS = {
     ),
     'C06': dict(
         technique='ASan+UBSan run of faulted encoder-like streams (drop/dup/swap/corrupt-version/corrupt-type); model-free integrity oracle via unique ids in the content plus recovery oracle',
-        level_text='Fault enumeration by execution: all single faults and all ordered pairs of faults on 16 canonical streams, seeded random 1..6-fault sequences on streams of 6..60 frames over 1..3 endpoints, and burst losses / displacements of 2..1100 frames (incl. 255/256/257, 511/512/513, 768, 1024) on streams of 300..1400 frames; every delivered packet must be byte-identical to exactly one sent message (found through the id embedded in its content) and every message whose frames arrive complete, in order and uninterrupted on its endpoint must be delivered at its last frame.',
+        level_text='Fault enumeration by execution: all single faults and all ordered pairs of faults on 16 canonical streams, seeded random 1..6-fault sequences on streams of 6..60 frames over 1..3 endpoints, and burst losses / displacements of 2..1100 frames (incl. 255/256/257, 511/512/513, 768, 1024) on streams of 300..1400 frames; every delivered packet must be byte-identical to exactly one sent message (found through the id embedded in its content) and every message whose frames arrive complete, in order and uninterrupted on its endpoint must be delivered at its last frame. One unsegmented message in twelve is one the decoder treats as invalid (error flag, payload type 0); a copy of the decoder taken mid-stream is fed the same frames next to the original and must deliver the same packets.',
         level_note='Trusted: the fault applicator and the bookkeeping of which sent message each frame carries. Duplicate delivery of duplicated frames is not forbidden by the statement and not flagged.',
         stages=[dict(driver='drv_decode', flavour='asan')],
         rule=('cases = (stream, fault sequence); non-trivial iff at least one fault hit a frame of a segmented message; distinct = distinct hash of the sequence of (fault kind, role of the hit frame in its message: unsegmented/first/middle/last) x stream id.'),
@@ -149,7 +149,7 @@ PROPS = {
     ),
     'C03': dict(
         technique='ASan (vector annotations) + UBSan on validators, constructors and every const accessor, plus an explicit pointer-range oracle on every reported view; three paths (class validator, decoder, message-level validator)',
-        level_text='Exploration: for each typed class, every buffer length 0..header+8 (and larger), every inner length field swept (8-bit fields exhaustively, 16-bit fields on a lattice in quick / exhaustively in thorough) on zero / ones / random backgrounds, every truncation of consistent payloads, and seeded semi-valid random buffers; accepted buffers are copied to an exact-size heap block that is freed before all accessors run; every (pointer, length) view must lie inside [getRawPayload(), +getLength()].',
+        level_text='Exploration: for each typed class, every buffer length 0..header+8 (and larger), every inner length field swept (8-bit fields exhaustively, 16-bit fields on a lattice in quick / exhaustively in thorough) on zero / ones / random backgrounds, every truncation of consistent payloads, and seeded semi-valid random buffers; accepted buffers are copied to an exact-size heap block that is freed before all accessors run; every (pointer, length) view must lie inside [getRawPayload(), +getLength()]. Views reported by a decoded packet are re-checked after the packet was copied, the accessors were called again and the copy was destroyed; buffers above 65535 bytes (and a quarter of the others) are also fed through the decoder as 2..5 segments and every packet returned valid is held to the same view oracle.',
         level_note='Trusted: ASan and the range oracle in accessors.h. One-directional: rejected buffers are skipped (accept/reject split is reported).',
         stages=[dict(driver='drv_memsafe', flavour='asan'),
                 dict(driver='fuzz_payload', flavour='fuzz', runner='fuzz', tiers=('thorough',), runs=dict(thorough=16000000), max_len=2048)],
@@ -161,7 +161,7 @@ PROPS = {
 
     'C11': dict(
         technique='ASan+UBSan run of every public setter against a shadow bit-image of the object (table of offset/width/mask per field): read-back, all other getters, all other raw bits',
-        level_text='Exploration, exhaustive for small fields: for 20 header/payload classes and 175 fields, every setter is called from default / all-zero / all-ones / random prior states with every in-range value (<= 8 bit exhaustive; <= 16 bit exhaustive in thorough) and in random set/clear sequences; after each call the value must read back, every other getter must equal the extract of the shadow image and no raw bit outside the field may change. Overlapping views (flags word vs single flags, id word, crc word, LIN pid) are judged through the shared shadow word.',
+        level_text='Exploration, exhaustive for small fields: for 20 header/payload classes and 175 fields, every setter is called from default / all-zero / all-ones / random prior states with every in-range value (<= 8 bit exhaustive; <= 16 bit exhaustive in thorough) and in random set/clear sequences; after each call the value must read back, every other getter must equal the extract of the shadow image and no raw bit outside the field may change. Overlapping views (flags word vs single flags, id word, crc word, LIN pid) are judged through the shared shadow word. TECMP::Payload / TECMP::PayloadType type setters and TECMP::LinPayload::setData are part of the tables.',
         level_note='Trusted: field table in harness/common/fields.h (offset, width, mask written from the protocol layout). Packet / PayloadType have no wire image: a virtual image serialised from their getters is used.',
         stages=[dict(driver='drv_fields', flavour='asan')],
         rule='cases = (class, field, background) with every in-range value written (exhaustive for fields <= 8 bits, for <= 16 bits a 600-value lattice in quick and exhaustive in thorough, boundary + walking bits + 64 random for wider fields, special and random finite values for floats) + random sequences of 8..64 setter calls on one object; every setter call is one evaluation. distinct_nontrivial = distinct (class, field, background in {default, all-zero, all-ones, random}, value class in {0, max, single-bit, other}) tuples.',
@@ -170,7 +170,7 @@ PROPS = {
     ),
     'C12': dict(
         technique='ASan+UBSan run comparing API writes and getter reads with an independent layout table (byte offset, width, bit mask, big-endian) on raw object images; header sizes and reserved bits of default objects',
-        level_text='Exploration, exhaustive for small fields: (a) sizes of all header classes and default payloads equal the standard, reserved bits of default objects are zero; (b) a value written through the API appears big-endian at exactly the table position and nothing else changes; (c) for arbitrary raw images every getter returns the value the table extracts; (d) reserved bits survive every in-range write; (e) the variable-length parts written by setData (length prefixes, data, NUL / zero padding of strings and stream-id lists) sit at the offsets the layout prescribes, from default objects and from objects with prior content. Same executions as C11 (a-d) and C13 (e), judged against the layout table / wire-model serialisation.',
+        level_text='Exploration, exhaustive for small fields: (a) sizes of all header classes and default payloads equal the standard, reserved bits of default objects are zero; (b) a value written through the API appears big-endian at exactly the table position and nothing else changes; (c) for arbitrary raw images every getter returns the value the table extracts; (d) reserved bits survive every in-range write; (e) the variable-length parts written by setData (length prefixes, data, NUL / zero padding of strings and stream-id lists) sit at the offsets the layout prescribes, from default objects and from objects with prior content. Same executions as C11 (a-d) and C13 (e), judged against the layout table / wire-model serialisation. Packet::getRawCmpHeader / getRawMessageHeader are called for every message type into destinations pre-filled with zeros, ones and random bytes and all 24 bytes are compared with the layout; TECMP type words, TECMP LIN setData and the derived voltage getter are covered.',
         level_note='Trusted: the layout table, transcribed from ASAM CMP 1.0 / TECMP as documented in DESIGN.md section 6 (the standard documents are not in the sandbox; the captured frames in the repository tests corroborate it).',
         stages=[dict(driver='drv_fields', flavour='asan')],
         rule='cases = (class, field, background) with every in-range value written (exhaustive for fields <= 8 bits, for <= 16 bits a 600-value lattice in quick and exhaustive in thorough, boundary + walking bits + 64 random for wider fields, special and random finite values for floats) + random sequences of 8..64 setter calls on one object; every setter call is one evaluation. distinct_nontrivial = distinct (class, field, background in {default, all-zero, all-ones, random}, value class in {0, max, single-bit, other}) tuples.',
@@ -188,7 +188,7 @@ PROPS = {
     ),
     'C14': dict(
         technique='ASan+UBSan run of copy/move construction and assignment over all ordered (source, target) pairs of an object pool, snapshot comparison, no-sharing mutation test, equality laws on all pairs',
-        level_text='Exploration with exhaustive pairing: a pool of ~40 packets (default packet, zero-length payloads of different types, every payload kind, equal-looking twins, 13 variants differing in exactly one field) - all ordered pairs x {copy-construct, move-construct, copy-assign, move-assign}, self-assignment, and all pairs for ==/!= (reflexive, symmetric, agrees with the field-by-field snapshot for non-empty payloads, != is the negation); Payload, typed payload bytes and TECMP::Payload likewise.',
+        level_text='Exploration with exhaustive pairing: a pool of ~40 packets (default packet, zero-length payloads of different types, every payload kind, equal-looking twins, 13 variants differing in exactly one field) - all ordered pairs x {copy-construct, move-construct, copy-assign, move-assign}, self-assignment, and all pairs for ==/!= (reflexive, symmetric, agrees with the field-by-field snapshot for non-empty payloads, != is the negation); Payload, typed payload bytes and TECMP::Payload likewise. After the all-pairs comparison every pool object is edited in place through a typed setter and must equal a never compared object with the same edit (and differ from its unedited twin), so must its copies; equality is also checked to discriminate other length / first byte / type.',
         level_note='Trusted: snapshot.h (all null-safe getters + payload bytes). A packet without payload can only be observed through isValid()/getPayloadLength().',
         stages=[dict(driver='drv_fields', flavour='asan')],
         rule='cases = rounds over a pool (4 deterministic pools + seeded random pools); every operation on a pair is one evaluation; distinct_nontrivial = distinct (source class, target class, operation, relation) tuples.',
@@ -210,7 +210,7 @@ PROPS = {
 
     'C16': dict(
         technique='ASan+UBSan exhaustive depth-first execution of all operation sequences up to a bound on copies of the real Status object, every node compared with a reference latest-message map; plus long random sequences',
-        level_text='Bounded-exhaustive exploration by execution: all sequences of length <= 5 (quick; <= 6 thorough) over the 28 concrete operations {update(cm,d), update(if,d,i), update(data,d), removeDeviceById(d), removeInterfaceById(d,i), clear} on 3 devices x 3 interfaces (ids chosen to collide under 8/16-bit truncation) are executed on copies of the real object and after EVERY operation the full observable state (counts, every lookup incl. absent ids, every stored packet, interface ids) is compared with a per-device/per-interface latest-message map; random sequences of length 200 go beyond the bound.',
+        level_text='Bounded-exhaustive exploration by execution: all sequences of length <= 5 (quick; <= 6 thorough) over the 28 concrete operations {update(cm,d), update(if,d,i), update(data,d), removeDeviceById(d), removeInterfaceById(d,i), clear} on 3 devices x 3 interfaces (ids chosen to collide under 8/16-bit truncation) are executed on copies of the real object and after EVERY operation the full observable state (counts, every lookup incl. absent ids, every stored packet, interface ids) is compared with a per-device/per-interface latest-message map; random sequences of length 200 go beyond the bound. Status payloads repeat (six per kind) while every header attribute, incl. the packet-level interface id and segment type, differs from packet to packet.',
         level_note='Trusted: the 40-line map model in drv_status.cpp; Status is copied at each node with its own copy constructor (a copy that differed from the original would itself be flagged by the comparison). Entry order is unspecified and not compared.',
         stages=[dict(driver='drv_status', flavour='asan')],
         rule='cases = two-operation prefixes (784) whose subtree is explored exhaustively + random sequences; every operation executed is one evaluation (one full state comparison). distinct_nontrivial = distinct (model state hash before, operation) transitions.',
@@ -221,7 +221,7 @@ PROPS = {
 
     'C19': dict(
         technique='ThreadSanitizer (happens-before race detection) on T threads each driving its own Encoder/Decoder/Status and the static TECMP decoder on independent seeded workloads; per-thread digests compared with single-threaded runs; helgrind as second detector in thorough',
-        level_text='Exploration of schedules: 8 (quick) / 16 (thorough) threads start on a barrier and run mixed workloads (encode+decode, reassembly, payload builders, TECMP conversion, status tracker) with sched_yield jitter between library calls; every other round is focused (all threads on one code path: encode+decode, decode, builders, TECMP, status, reassembly of 16..60 KiB messages); every output is folded into a digest that must equal the digest of the same workload run alone beforehand; the ThreadSanitizer log must contain no report block with a library frame (blocks de-duplicated by kind and library functions). An atomic counter records how many threads were inside library code simultaneously.',
+        level_text='Exploration of schedules: 8 (quick) / 16 (thorough) threads start on a barrier and run mixed workloads (encode+decode, reassembly, payload builders, TECMP conversion, status tracker) with sched_yield jitter between library calls; every other round is focused (all threads on one code path: encode+decode, decode, builders, TECMP, status, reassembly of 16..60 KiB messages); every output is folded into a digest that must equal the digest of the same workload run alone beforehand; the ThreadSanitizer log must contain no report block with a library frame (blocks de-duplicated by kind and library functions). An atomic counter records how many threads were inside library code simultaneously. Every fourth round gives each thread copies of one used prototype (Encoder that has sent frames, Decoder mid-reassembly, Status that knows devices) made before the threads start.',
         level_note='Trusted: ThreadSanitizer (reports unordered conflicting accesses even if they did not collide in time, which is what "no unsynchronised shared state" needs), valgrind helgrind. Sampled schedules, not all schedules.',
         stages=[dict(driver='drv_threads', flavour='tsan', runner='tsan', shards=dict(quick=4, thorough=4)),
                 dict(driver='drv_threads', flavour='plain0', runner='helgrind', tiers=('thorough',), env=dict(VF_THREADS='4', VF_STEPS='60', VF_ROUNDS='3'))],
